@@ -766,5 +766,5 @@ CLAIM = {
             "imported or run). The rank rule covers the Metric.compute family only.",
     "technique": "static analysis: library API existence against installed versions, rank lint, registry/MRO hook exhaustiveness, "
                  "nullness guard analysis, guard/use contradiction rule, element-type lint on row descriptors (C19.7); entry-point dispatch from call events "
-                 "(helpers inlined, bound-method locals resolved) and the driver's capability gates by value (surviving axis = None iff documented gate, truth table)",
+                 "(helpers inlined, bound-method locals resolved) and the driver's capability gates by value (surviving axis = None iff documented gate, truth table); C19.5 also min/max-like reductions over np.diff of a list that may have one element; C19.7 position-sensitive propagation of the descriptor table through helpers that return it inside a tuple",
 }
